@@ -43,3 +43,9 @@ def fill(chk):
         "Finite menus; serverSigAlg/ecdhCurve/dhGroupSize only checked where the library sets them; fixture key sizes are constants.",
         "exhaustive product enumeration of settings pairs x flavours with live handshakes and an independent policy-membership oracle",
         "DESIGN.md 3/C03")
+
+    chk("C09", "exploration",
+        "Every pure-Python primitive and KDF the library ships is evaluated over an exhausted shape space - AES block (3 key sizes), AES/3DES-CBC over 0..4 (6) blocks with every composition into 1-3 calls for both directions, RC4/AES-CTR over every length 0..40 (70) with every 2-way (3-way) split and carrying counters, all seven AEADs over the plaintext x AAD length grid plus the CCM AAD length-encoding boundaries, ChaCha20 block counters, Poly1305 0..49 bytes, HMAC key-length x message-length grid with copy() mid-stream, SSLv3 MAC, SSLv3/TLS1.0/TLS1.2 PRFs over secret/label/seed/output length ranges, HKDF-Expand-Label/Derive-Secret, calc_key for every version/label/PRF hash, exporters of live connections - and compared with an independent reference; AEAD open() must return None for every single-bit change of ciphertext, tag, nonce and AAD and every truncation.",
+        "Values come from a 5-pattern alphabet per shape; mc/refcrypto.py (hashlib/hmac only) is trusted after its self-test against published vectors and the openssl CLI cross-check run at the start of every check.",
+        "exhaustive input-shape enumeration against an independent reference implementation",
+        "DESIGN.md 3/C09")
